@@ -18,7 +18,7 @@ GEN_VERSION = 1
 # one fixed, distinctive value per context key (all different from every processor default)
 KEY_VALUES: Dict[str, Any] = {
     "a": 1.5, "b": 2.5, "r": 4.0, "factor": 5.0, "addend": 0.75, "path": "p_ctx.txt", "value": 9.0, "gain": 1.25,
-    "zz": 0.125,
+    "zz": 0.125, "nest": {"limits": {"hi": 7, "lo": 1}, "alpha": 2},
 }
 
 
@@ -60,9 +60,16 @@ SYMBOLS: Dict[str, dict] = {
     "add": dict(node=_n("VAdd"), kind="op", proc="VAdd", params=[("addend", NODEF)], cfg={}, reads=["addend"]),
     "two": dict(node=_n("VTwo"), kind="op", proc="VTwo", params=[("factor", NODEF), ("addend", 0.5)], cfg={}, reads=["factor", "addend"]),
     "two_cfg": dict(node=_n("VTwo", {"addend": 0.25}), kind="op", proc="VTwo", params=[("factor", NODEF), ("addend", 0.5)], cfg={"addend": 0.25}, reads=["factor", "addend"]),
+    # keyword-only parameters (declared after a bare * in _process_logic) resolve like any other
+    "kwmul": dict(node=_n("VKwMul"), kind="op", proc="VKwMul", params=[("factor", NODEF)], cfg={}, reads=["factor"]),
+    "kwmul3": dict(node=_n("VKwMul", {"factor": 3.0}), kind="op", proc="VKwMul", params=[("factor", NODEF)], cfg={"factor": 3.0}, reads=["factor"]),
+    "kwtwo": dict(node=_n("VKwTwo"), kind="op", proc="VKwTwo", params=[("factor", NODEF), ("addend", 0.5)], cfg={}, reads=["factor", "addend"]),
+    "kwtwo_cfg": dict(node=_n("VKwTwo", {"addend": 0.25}), kind="op", proc="VKwTwo", params=[("factor", NODEF), ("addend", 0.5)], cfg={"addend": 0.25}, reads=["factor", "addend"]),
     "ctxw": dict(node=_n("VCtxWrite"), kind="op", proc="VCtxWrite", params=[], cfg={}, reads=["a"]),
+    "nestw": dict(node=_n("VNestWrite"), kind="op", proc="VNestWrite", params=[("nest", None)], cfg={}, reads=["nest"]),
     "badw": dict(node=_n("VBadWrite"), kind="op", proc="VBadWrite", params=[], cfg={}, reads=[]),
     "fail": dict(node=_n("VFail"), kind="op", proc="VFail", params=[], cfg={}, reads=[]),
+    "failempty": dict(node=_n("VFailEmpty"), kind="op", proc="VFailEmpty", params=[], cfg={}, reads=[]),
     "failif": dict(node=_n("VFailIf"), kind="op", proc="VFailIf", params=[("a", 0.0)], cfg={}, reads=["a"]),
     "interrupt": dict(node=_n("VInterrupt"), kind="op", proc="VInterrupt", params=[], cfg={}, reads=[]),
     "abort": dict(node=_n("VAbort"), kind="op", proc="VAbort", params=[], cfg={}, reads=[]),
@@ -72,10 +79,13 @@ SYMBOLS: Dict[str, dict] = {
     "probe_factor": dict(node=_n("VProbe", context_key="factor"), kind="probe", proc="VProbe", ckey="factor", params=[], cfg={}, reads=["factor"]),
     "probe_r": dict(node=_n("VProbe", context_key="r"), kind="probe", proc="VProbe", ckey="r", params=[], cfg={}, reads=["r"]),
     "gainprobe": dict(node=_n("VGainProbe", context_key="gain"), kind="probe", proc="VGainProbe", ckey="gain", params=[("gain", 1.0)], cfg={}, reads=["gain"]),
+    "echoprobe": dict(node=_n("VEchoProbe", context_key="e"), kind="probe", proc="VEchoProbe", ckey="e", params=[], cfg={}, reads=[]),
+    "kwgainprobe": dict(node=_n("VKwGainProbe", context_key="gain"), kind="probe", proc="VKwGainProbe", ckey="gain", params=[("gain", 1.0)], cfg={}, reads=["gain"]),
     "probe_nokey": dict(node=_n("VProbe"), kind="invalid", error="PipelineConfigurationError", params=[], cfg={}, reads=[]),
     # context processors
     "ren_r_factor": dict(node=_n("rename:r:factor"), kind="ctx", op="rename", src="r", dst="factor", params=[("r", NODEF)], cfg={}, reads=["r", "factor"]),
     "ren_factor_a": dict(node=_n("rename:factor:a"), kind="ctx", op="rename", src="factor", dst="a", params=[("factor", NODEF)], cfg={}, reads=["factor", "a"]),
+    "ren_tv_a": dict(node=_n("rename:t_values:a"), kind="ctx", op="rename", src="t_values", dst="a", params=[("t_values", NODEF)], cfg={}, reads=["t_values", "a"]),
     "del_factor": dict(node=_n("delete:factor"), kind="ctx", op="delete", src="factor", params=[("factor", NODEF)], cfg={}, reads=["factor"]),
     "del_a": dict(node=_n("delete:a"), kind="ctx", op="delete", src="a", params=[("a", NODEF)], cfg={}, reads=["a"]),
     "tmpl_a": dict(node=_n('template:"v_{r}":a'), kind="ctx", op="template", tmpl="v_{r}", dst="a", params=[("r", NODEF)], cfg={}, reads=["r", "a"]),
@@ -86,6 +96,7 @@ SYMBOLS: Dict[str, dict] = {
     "slice_mul": dict(node=_n("slice:VMul:FloatDataCollection"), kind="slicer_op", proc="VMul", params=[("factor", NODEF)], cfg={}, reads=["factor"]),
     "slice_muldef": dict(node=_n("slice:VMulDef:FloatDataCollection"), kind="slicer_op", proc="VMulDef", params=[("factor", 2.0)], cfg={}, reads=["factor"]),
     "slice_mul3": dict(node=_n("slice:VMul:FloatDataCollection", {"factor": 3.0}), kind="slicer_op", proc="VMul", params=[("factor", NODEF)], cfg={"factor": 3.0}, reads=["factor"]),
+    "slice_kwmul": dict(node=_n("slice:VKwMul:FloatDataCollection"), kind="slicer_op", proc="VKwMul", params=[("factor", NODEF)], cfg={}, reads=["factor"]),
     "slice_probe": dict(node=_n("slice:VProbe:FloatDataCollection", context_key="r"), kind="slicer_probe", proc="VProbe", ckey="r", params=[], cfg={}, reads=["r"]),
     # sweeps (deep coverage lives in C03)
     "sweep_src": dict(node=_sweep("VSrc", {"value": "2.0 * t"}, {"t": {"values": [1.0, 2.0, 3.0]}}, "FloatDataCollection"),
@@ -111,7 +122,7 @@ ALL = [s for s in SYMBOLS if s not in ("interrupt", "abort", "sysexit")]  # Keyb
 PRIME = ["src", "srcdef", "paysrc", "mul", "muldef", "two", "ctxw", "fail", "sum", "probe_factor", "gainprobe",
          "ren_r_factor", "del_factor", "tmpl_a", "slice_mul", "sweep_op", "sink_ctx", "bogus"]
 # symbols whose failures are deliberate processor errors (removed for C02)
-DELIBERATE = {"fail", "failif", "badw", "interrupt", "abort", "sysexit"}
+DELIBERATE = {"fail", "failempty", "failif", "badw", "interrupt", "abort", "sysexit"}
 
 DATA_KINDS = ["none", "float", "coll"]
 
